@@ -36,6 +36,7 @@ package morass
 //@   ensures [reset]    result == nil ==> m.pos == 0 && m.len == 0 && len(m.files) == 0 && m._err == nil
 //@   ensures [not-fast] result == nil ==> !m.fast
 //@   ensures [removed]  result == nil ==> removeCount(0) == old(removeCount(0)) + old(len(m.files))
+//@   assigns m._err, m.files, m.pos, m.len, m.fast, m.chunk, removeCount(0), fresh
 //@   loop 1 invariant 0 <= idx && idx <= len(m.files) && m.files == old(m.files) && removeCount(0) == old(removeCount(0)) + idx
 //@   loop 1 invariant forall i int :: 0 <= i && i < len(m.files) ==> m.files[i] != nil && m.files[i].file != nil
 
@@ -44,3 +45,21 @@ package morass
 //@   property C13
 //@   requires m != nil
 //@   ensures  removeAllCount(0) == old(removeAllCount(0)) + 1 && lastRemoveAll(0) == m.dir
+
+// wf(m): what every method relies on.
+//@ spec wf(m *Morass) bool = m != nil && m.chunkSize >= 0 && m.typ != nil && m.pos >= 0 && m.len >= 0
+//@       && (forall i int :: 0 <= i && i < len(m.files) ==> m.files[i] != nil && m.files[i].file != nil && m.files[i].decoder != nil)
+//@       && (forall i int :: 0 <= i && i < len(m.chunk) ==> m.chunk[i] != nil)
+
+// Less is an observer of the two values.
+//@ func (LessInterface).Less
+//@   pure
+
+// Pull: the in-memory path hands out chunk[pos] and advances pos; it reports io.EOF exactly when the chunk is
+// exhausted. Whenever Pull reports io.EOF on a sorter with AutoClean set, the sorter's directory has been removed.
+//@ func (*Morass).Pull
+//@   property C11 C13
+//@   requires wf(m) && e != nil
+//@   ensures [fast-next]  old(m.fast) && result == nil ==> old(m.chunk) != nil && 0 <= old(m.pos) && old(m.pos) < len(old(m.chunk)) && m.pos == old(m.pos) + 1
+//@   ensures [fast-eof]   old(m.fast) && old(m.chunk) != nil && 0 <= old(m.pos) && old(m.pos) < len(old(m.chunk)) ==> result != io.EOF
+//@   ensures [autoclean]  result == io.EOF && old(m.AutoClean) ==> removeAllCount(0) > old(removeAllCount(0)) && lastRemoveAll(0) == old(m.dir)
